@@ -17,6 +17,8 @@ fns = set()
 combs = {}
 for cfg in ("A", "B", "C", "D", "E"):
     p = core.load(cfg)
+    RAWS = globals().setdefault("RAWS", {})
+    RAWS[cfg] = {q: x.raw for q, x in list(p.elab.items()) + list(p.bodies.items())}
     for path, b in list(p.bodies.items()) + list(p.elab.items()):
         if b.kind in ("fn", "method"):
             fns.add(path)
@@ -27,10 +29,12 @@ for cfg in ("A", "B", "C", "D", "E"):
                 c = inline.combinator_of(t)
                 if c:
                     combs.setdefault(owner, set()).add(c)
+                if inline.closure_call_of({q: x.raw for q, x in p.bodies.items()} if False else RAWS[cfg], b.raw, t):
+                    combs.setdefault(owner, set()).add(inline.CLOSURE_CALL)
 with open(os.path.join(VERIF, "oracles", "known_fns.json"), "w") as fh:
     json.dump({"_comment": "function bodies of the pinned tree (after the fix: commits) and the Option/Result combinators each of them "
                            "(with its closures) already uses; see hv/inline.py", "functions": sorted(fns),
-               "combinator_table": sorted(inline.COMBINATORS),
+               "combinator_table": sorted(set(inline.COMBINATORS) | {inline.CLOSURE_CALL}),
                "combinators": {k: sorted(v) for k, v in sorted(combs.items())}}, fh, indent=0)
 try:
     os.remove(os.path.join(VERIF, "oracles", "known_fns.json.bak"))
